@@ -30,6 +30,8 @@ def observe(V):
         vertices=np.array(p.vertices, float),
     )
     obs["face_area_forms"] = C.face_area_forms(p, obs["face_areas"])
+    # (last: this resizes p) the measures are those of the solid as it is now, also when they were asked for before a resize
+    obs["after_resize"] = C.resize_probe(p, lambda s_: coxeter.shapes.ConvexPolyhedron(np.array(s_.vertices)))
     return obs
 
 
@@ -77,6 +79,8 @@ def judge(chk, tag, V, obs, code, spec, fc_specs):
         fails.append(("face_areas", "face areas do not sum to the surface area"))
     for prob in obs.get("face_area_forms", []):
         fails.append(("get_face_area-call-forms", prob))
+    for prob in obs.get("after_resize", [])[:1]:
+        fails.append(("measures-stale-after-resize", prob))
     # a "face" is one facet of the hull: the simplices grouped into it must be coplanar (exactly, for the dyadic inputs used here;
     # 1e-10 of the size allowed) - otherwise per-face areas and face centroids describe something that is not a face
     Vv, Ss = obs["vertices"], obs["simplices"]
